@@ -147,9 +147,14 @@ func (db *DB) Compact() (CompactionResult, error) {
 		db.maintenanceMu.Unlock()
 	}()
 
-	db.mu.RLock()
+	db.mu.Lock()
 	segments := db.pickForCompaction()
-	db.mu.RUnlock()
+	for _, seg := range segments {
+		// Prevent writes to the picked segments: a delete record appended to a picked segment
+		// after this point could be discarded while an older segment still holds the deleted key.
+		seg.meta.Full = true
+	}
+	db.mu.Unlock()
 	verifYield(db, "compact:picked")
 
 	for _, seg := range segments {
